@@ -413,3 +413,38 @@ Fixpoint uniq_placed_t (vs : vschema) (t : stree) : bool :=
 Definition vschema_ok (vs : vschema) : bool :=
   forallb (shape false) (vs_tree vs) && forallb (dflt_ok vs) (vs_tree vs) && keys_ok vs && uniq_ok vs &&
   forallb (uniq_placed_t vs) (vs_tree vs).
+
+(* ------------------------------------------------------------------------------------------- *)
+(* CONFIGURATION ONLY (LYD_VALIDATE_NO_STATE; RFC 7950 sec. 8.1: the constraints on configuration; 7.21.1: config false
+   nodes are not part of a configuration datastore): the tree contains no config false node, and it is valid for the
+   CONFIGURATION VIEW of the schema, in which config false nodes carry no mandatory / min-elements / max-elements /
+   unique constraint and no default. The view keeps the schema tree (choices and cases are unchanged), so it is the
+   intended reading only where no mandatory choice sits below a config false node (cfg_ready).                      *)
+Definition neut (i : sinfo) : sinfo :=
+  if si_config i then i
+  else mk_sinfo (si_kind i) (si_parent i) (si_keys i) (si_userord i) false [] (si_choice i) false 0 None (si_order i).
+
+Definition cfg_view (vs : vschema) : vschema :=
+  mk_vschema (map (fun ki => (fst ki, neut (snd ki))) (vs_info vs)) (vs_tree vs)
+             (filter (fun u => si_config (sget (vs_info vs) (fst u))) (vs_uniq vs)).
+
+Fixpoint nostate_node (vs : vschema) (n : dnode) : bool :=
+  match n with DN s _ _ _ ch => si_config (info vs s) && forallb (nostate_node vs) ch end.
+Definition rfc_nostate (vs : vschema) (f : forest) : bool := forallb (nostate_node vs) f.
+
+Definition rfc_valid_config (ty : sid -> bytes -> bool) (vs : vschema) (f : forest) : bool :=
+  rfc_nostate (cfg_view vs) f && rfc_valid ty (cfg_view vs) f.
+
+Fixpoint no_mand_choice (t : stree) : bool :=
+  match t with
+  | TNode _ ch => forallb no_mand_choice ch
+  | TChoice _ m cs => negb m && forallb no_mand_choice cs
+  | TCase _ _ ch => forallb no_mand_choice ch
+  end.
+Fixpoint cfg_ready_t (vs : vschema) (t : stree) : bool :=
+  match t with
+  | TNode s ch => if si_config (info vs s) then forallb (cfg_ready_t vs) ch else forallb no_mand_choice ch
+  | TChoice _ _ cs => forallb (cfg_ready_t vs) cs
+  | TCase _ _ ch => forallb (cfg_ready_t vs) ch
+  end.
+Definition cfg_ready (vs : vschema) : bool := forallb (cfg_ready_t vs) (vs_tree vs).
